@@ -286,6 +286,27 @@ def query(ctx, cid, nq, body, **kw):
     return c
 
 
+ENGINE_TAGS = {"eq", "neq", "conde", "cond", "fresh", "dfs", "conj", "rawconj", "rawdisj", "disj", "succeed", "fail",
+               "leaf", "conda", "condu", "onceo", "call", "call:member", "call:member1", "call:append", "call:rember",
+               "call:cons", "call:empty",
+               # term constructors
+               "var", "num", "sym", "list", "ilist", "cons", "nil", "cmp", "any"}
+
+
+def with_engine_records(ctx, every=1):
+    """Engine-level trace validation for the query cases planned so far whose goals Search.tla models step by
+    step (tree constraints, the search operators, the closure-based library relations): the harness records
+    the stream skeleton at every iteration of Solver::next, the judge steps the specification alongside.
+    Diagnostic only (`engine_shape_mismatch` is never a verdict)."""
+    n = 0
+    for c in ctx["cases"]:
+        if c.get("mode") == "query" and c.get("backend") != "surface" and not c.get("defs") and "take" not in c \
+                and "sched" not in c and vlib.goal_tags({"b": c["body"]}) <= ENGINE_TAGS:
+            n += 1
+            if n % every == 0:
+                c["engine"] = True
+
+
 def plan_c05(ctx):
     rd, rm, rq = search_mc_many(ctx, [("dfs", T(ctx, "DfsSmall", "DfsFull"), True), ("mixed", "Mixed", False),
                                       ("qdfs", T(ctx, "QDfsSmall", "QDfs"), True)])
@@ -322,6 +343,7 @@ def plan_c05(ctx):
                 t = ["num", 10 + j]
             cls.append([["eq", v, t] if rng.random() < 0.5 else ["eq", t, v]])
         add(ctx, [query(ctx, "C05-w-%d" % i, nq, [["dfs", [[["cond", cls]]]]], ordered=True)])
+    with_engine_records(ctx)
 
 
 def plan_c06(ctx):
@@ -353,6 +375,7 @@ def plan_c06(ctx):
         add(ctx, [query(ctx, "C06-infm-%d" % i, 2, [["call", "member", [["num", 1], ["var", 1]]],
                                                     ["call", "append", [["var", 2], ["list", [["num", 2]]], ["var", 1]]]][:rng.randint(1, 2)],
                         take=rng.randint(2, 5), fuel=9)])
+    with_engine_records(ctx, every=T(ctx, 1, 4))
 
 
 def raw_conj(goals):
